@@ -752,7 +752,15 @@ class Renderer:
                 return out
             canon_full = self.canon_val(it)
             self.use(it, "iter", n.lineno)
-            base, filt_tests = self.strip_order_filters(canon_full)
+            # `for x in X|map(attribute='a')` visits ELEM(X).a : peel a trailing attribute projection (possibly under list / sort / unique)
+            map_attr = None
+            mm_ = re.search(r"\|map\(attribute='([\w.]+)'\)((?:\|(?:list|sort|unique)\(\))*)$", canon_full)
+            if mm_ and isinstance(n.target, nodes.Name):
+                map_attr = mm_.group(1)
+                canon_full_stripped = canon_full[: mm_.start()]
+            else:
+                canon_full_stripped = canon_full
+            base, filt_tests = self.strip_order_filters(canon_full_stripped)
             uses_loop = self.ts.uses_loop(n)
             coll = re.sub(r"\.(items|values|keys)\(\)$", "", base)
             arity = self.val.loop(coll, id(n), want2=uses_loop)
@@ -775,6 +783,9 @@ class Renderer:
             for i in range(arity):
                 sc = Scope(scope)
                 self.bind_loop_target(n.target, it, base, sc)
+                if map_attr is not None:
+                    el_ = sc.vars[n.target.name]
+                    sc.vars[n.target.name] = Sym(el_.canon + "." + map_attr, ("attr", el_.term, map_attr) if "." not in map_attr else None)
                 if n.test is not None:
                     v, f = self.decide(n.test, sc)
                     if not v:
@@ -1371,10 +1382,15 @@ class Renderer:
             return Cat(parts)
         if isinstance(value, (list, tuple)) and name in ("list", "sort", "unique") and not args and not kwargs:
             return list(value)
-        if name == "join" and not kwargs and len(args) <= 1 and (not args or isinstance(args[0], str)):
-            # `x|join(sep)` is `sep.join(x)`: one canonical spelling (the method-call form), so rules see the same hole for both
-            sep = args[0] if args else ""
-            return Sym(f"{self.canon_val(sep)}.join({self.canon_args([value], {})})")
+        if name == "join" and set(kwargs) <= {"attribute", "d"} and len(args) <= 1 and (not args or isinstance(args[0], str)) \
+                and isinstance(kwargs.get("attribute", ""), str) and isinstance(kwargs.get("d", ""), str):
+            # `x|join(sep)` is `sep.join(x)` and `x|join(sep, attribute='a')` is `sep.join(x|map(attribute='a'))`: one canonical spelling
+            # (the method-call form), so rules see the same hole for all of them
+            sep = args[0] if args else kwargs.get("d", "")
+            inner = self.canon_args([value], {})
+            if kwargs.get("attribute"):
+                inner = f"{inner}|map(attribute={kwargs['attribute']!r})"
+            return Sym(f"{self.canon_val(sep)}.join({inner})")
         if name in ("first", "last"):
             k = (self.canon_val(value), name)
             if k not in self.uses:
